@@ -463,24 +463,55 @@ def pre_batch(tier):
     """Returns (violations, stats dict).  Each spelling: fresh interpreter, import jaxtyping, print the switch."""
     import concurrent.futures as cf
 
-    code = "import jaxtyping; print('SWITCH', jaxtyping.config.jaxtyping_disable)"
+    # a process that STARTS with the variable set must still follow later config.update calls, in both directions, without
+    # re-decoration: print the switch, then (ill-typed call, flip) three times
+    code = (
+        "import jaxtyping, numpy as np, typeguard\n"
+        "from jaxtyping import Float, jaxtyped\n"
+        "print('SWITCH', jaxtyping.config.jaxtyping_disable)\n"
+        "@jaxtyped(typechecker=typeguard.typechecked)\n"
+        "def f(x: Float[np.ndarray, '3']):\n    return 1\n"
+        "for step in range(3):\n"
+        "    try:\n        f(np.zeros(4)); r = 'accepted'\n"
+        "    except Exception as e:\n        r = type(e).__name__\n"
+        "    print('STEP', step, jaxtyping.config.jaxtyping_disable, r)\n"
+        "    jaxtyping.config.update('jaxtyping_disable', not jaxtyping.config.jaxtyping_disable)\n"
+    )
 
-    def one(sp):
-        env = dict(os.environ, JAXTYPING_DISABLE=sp)
+    def one(item):
+        var, sp = item
+        env = dict(os.environ)
+        env.pop("JAXTYPING_DISABLE", None)
+        env.pop("JAXTYPING_REMOVE_TYPECHECKER_STACK", None)
+        env[var] = sp
         p = subprocess.run([sys.executable, "-c", code], env=env, capture_output=True, text=True, timeout=120)
-        return sp, p.returncode, p.stdout, p.stderr[-400:]
+        return var, sp, p.returncode, p.stdout, p.stderr[-400:]
 
     viols, st = [], {}
+    items = [("JAXTYPING_DISABLE", sp) for sp in ENV_SPELLINGS] + [("JAXTYPING_REMOVE_TYPECHECKER_STACK", sp) for sp in ("1", "false", "TRUE", "maybe", "")]
     with cf.ThreadPoolExecutor(8) as ex:
-        for sp, rc, out, err in ex.map(one, ENV_SPELLINGS):
+        for var, sp, rc, out, err in ex.map(one, items):
             want = _parse(sp)
             st["env_spellings"] = st.get("env_spellings", 0) + 1
+            problem = None
             if want is None:
-                ok = rc != 0 and "ValueError" in err
+                if not (rc != 0 and "ValueError" in err):
+                    problem = "ValueError at import expected"
             else:
-                ok = rc == 0 and f"SWITCH {want}" in out
-            if not ok:
-                viols.append(violation(PID, "environment", {"JAXTYPING_DISABLE": sp, "expected": "ValueError at import" if want is None else want,
-                                                            "returncode": rc, "stdout": out[-200:], "stderr": err},
-                                       sig={"oracle": "environment", "spelling": sp}))
+                start = want if var == "JAXTYPING_DISABLE" else False
+                if rc != 0 or f"SWITCH {start}" not in out:
+                    problem = f"switch should read {start} after import"
+                else:
+                    # the three steps alternate the switch, and every ill-typed call follows the CURRENT value
+                    cur = start
+                    for step in range(3):
+                        exp = f"STEP {step} {cur} " + ("accepted" if cur else "TypeCheckError")
+                        if exp not in out:
+                            problem = f"after the process started with {var}={sp!r}: expected {exp!r} (config.update must take effect in both directions)"
+                            break
+                        cur = not cur
+                    st["env_update_steps"] = st.get("env_update_steps", 0) + 3
+            if problem:
+                viols.append(violation(PID, "environment", {var: sp, "expected": problem, "returncode": rc, "stdout": out[-300:], "stderr": err},
+                                       sig={"oracle": "environment", "variable": var, "spelling": sp}))
     return viols, st
